@@ -935,6 +935,13 @@ func (k *Kernel) addFuturePrevote(
 		)
 	}
 
+	if len(curPrevotesSparse.PubKeyHash) > 0 && !bytes.Equal(curPrevotesSparse.PubKeyHash, req.PubKeyHash) {
+		// Another request stored prevotes verified against a different validator set
+		// between the mirror's look at the round store and this request.
+		// The mirror prepared this request against what it saw then; report it as out of date.
+		return AddVoteOutOfDate
+	}
+
 	// TODO: there is probably some optimized path using [gcrypto.CommonMessageSignatureProof.Derive].
 	existingFullProofs, err := curPrevotesSparse.ToFullPrevoteProofMap(
 		req.H, req.R,
@@ -1042,6 +1049,11 @@ func (k *Kernel) addFuturePrecommit(
 		curPrecommitsSparse.BlockSignatures = make(
 			map[string][]gcrypto.SparseSignature, len(req.Precommits),
 		)
+	}
+
+	if len(curPrecommitsSparse.PubKeyHash) > 0 && !bytes.Equal(curPrecommitsSparse.PubKeyHash, req.PubKeyHash) {
+		// As with future prevotes: stored under another validator set in the meantime.
+		return AddVoteOutOfDate
 	}
 
 	// TODO: there is probably some optimized path using [gcrypto.CommonMessageSignatureProof.Derive].
@@ -2364,6 +2376,17 @@ func (k *Kernel) loadInitialView(
 			"cannot initialize view: failed to save or check initial view vote power hash: %w",
 			err,
 		)
+	}
+
+	// Votes that arrived while this round was a future round of a later height
+	// were verified against the validator set their message named,
+	// because the set of a height is only known once the height before it commits.
+	// If that was not the set the chain then prescribed, they are not votes of this round.
+	if len(sparsePrevotes.PubKeyHash) > 0 && !bytes.Equal(sparsePrevotes.PubKeyHash, vs.PubKeyHash) {
+		sparsePrevotes = tmconsensus.SparseSignatureCollection{}
+	}
+	if len(sparsePrecommits.PubKeyHash) > 0 && !bytes.Equal(sparsePrecommits.PubKeyHash, vs.PubKeyHash) {
+		sparsePrecommits = tmconsensus.SparseSignatureCollection{}
 	}
 
 	rv.PrevoteProofs, err = sparsePrevotes.ToFullPrevoteProofMap(
